@@ -99,11 +99,16 @@ def handle (st : St) (line : String) : St × Option String :=
   | ("T" :: tid :: "X" :: name :: _) :: _ => ({ st with builtins := st.builtins.insert tid name }, none)
   | ("T" :: tid :: toks) :: _ =>
     match parseNode toks with
-    | some (n, _) => ({ st with types := st.types.insert tid n }, none)
+    | some (n, _) =>
+      -- the theorems' hypothesis on type trees is evaluated on every tree read
+      ({ st with types := st.types.insert tid n }, if NodeWF n then none else some "dev-ok hypothesis NodeWF does not hold for this type tree")
     | none => (st, some "skip bad-type")
   | ("V" :: vid :: tid :: toks) :: _ =>
     match parseVal toks, st.types[tid]? with
-    | some (v, _), some n => ({ st with vals := st.vals.insert vid (coerce n v) }, none)
+    | some (v, _), some n =>
+      let cv := coerce n v
+      -- … and so is well-typedness of every value against its tree
+      ({ st with vals := st.vals.insert vid cv }, if WT n cv then none else some "dev-ok hypothesis WT does not hold for this value")
     | some (v, _), none => ({ st with vals := st.vals.insert vid v }, none)
     | none, _ => (st, none)       -- values the model cannot name (inexact floats): ops on them are skipped
   | ["MODE", m] :: _ => ({ st with mode := m }, none)
